@@ -458,10 +458,27 @@ fn chk_history(g: &mut Gen) -> Result<(), String> {
                 let p = gen_packet(g);
                 if decode_known_panic(&p) || process_known_panic(&p, vids.len()) { continue; }
                 let is_assign = decode_accepts(&p) && p[8] & 0x7f == 0 && p[9] & 0x80 != 0 && p[10] == 1 && (p[11] == 0 || p[11] == 1);
-                let mut rb = [0u8; 72];
-                let _ = quiet(|| c.process_packet(&p, &mut rb).map(|x| x.1)).map_err(|m| format!("process_packet({}) panicked: {}", hex(&p), m))?;
+                let mut rb = [0xA5u8; 72];
+                let pr = quiet(|| c.process_packet(&p, &mut rb).map(|((t, pl), n)| (t as u8, pl.to_vec(), n))).map_err(|m| format!("history {:?}: process_packet({}) panicked: {}", trace, hex(&p), m))?;
                 if is_assign { model_eid = p[12]; model_eid_s = p[12]; }
                 trace.push(format!("process({})", hex(&p)));
+                // C11 at every point of a history: same outcome as decoding these bytes alone (on a fresh context),
+                // a response only for an accepted control request, otherwise no byte of the response buffer written
+                let fresh = MCTPSMBusContext::new(0x55, &[], &[]);
+                let d = quiet(|| fresh.decode_packet(&p).map(|(t, pl)| (t as u8, pl.to_vec()))).map_err(|m| format!("decode_packet({}) panicked: {}", hex(&p), m))?;
+                match (&d, &pr) {
+                    (Ok((t, pl)), Ok((t2, pl2, on))) => {
+                        if t != t2 || pl != pl2 { return Err(format!("history {:?}: process_packet reports another type/payload than decoding alone", trace)); }
+                        let answerable = *t == 0 && p[9] & 0x80 != 0;
+                        if on.is_some() != answerable { return Err(format!("history {:?}: response={:?} but the packet is{} an accepted control request", trace, on, if answerable { "" } else { " not" })); }
+                        if on.is_none() && rb.iter().any(|b| *b != 0xA5) { return Err(format!("history {:?}: no response reported but the response buffer was written", trace)); }
+                    }
+                    (Err(e), Err(e2)) => {
+                        if err_class(e) != err_class(e2) { return Err(format!("history {:?}: process_packet error {} differs from decoding alone {}", trace, err_class(e2), err_class(e))); }
+                        if rb.iter().any(|b| *b != 0xA5) { return Err(format!("history {:?}: rejected packet but the response buffer was written", trace)); }
+                    }
+                    _ => return Err(format!("history {:?}: process_packet and decoding alone disagree on acceptance", trace)),
+                }
             }
         }
         if c.get_request().get_eid() != model_eid || c.get_response().get_eid() != model_eid_s {
@@ -591,7 +608,8 @@ pub fn checks_for(pid: &str) -> Vec<(&'static str, Chk)> {
         "C03" | "C04" | "C05" => vec![enc, rcv],
         "C07" => vec![enc, rcv, his],
         "C06" | "C08" | "C16" => vec![enc],
-        "C09" | "C10" | "C11" | "C17" => vec![rcv, enc],
+        "C11" => vec![rcv, his, enc],
+        "C09" | "C10" | "C17" => vec![rcv, enc],
         "C12" => vec![rcv, his],
         "C13" => vec![his, rcv],
         "C14" => vec![enu, rcv],
